@@ -1,6 +1,6 @@
 (* C06 — property theorems only.  Each is closed by [exact <lemma>] and followed by
    Print Assumptions; the statements are pinned here so they cannot be quietly weakened. *)
-From FB Require Import C06.Model C18.Theory C06.Theory1 C06.Theory2 C06.Theory3.
+From FB Require Import C06.Model C18.Theory C06.Theory1 C06.Theory2 C06.Theory3 C06.Theory4.
 
 (* ---- 1. descriptor rewriting preserves the shape and maps exactly the class names ---- *)
 
@@ -220,6 +220,79 @@ Theorem C06_roundtrip : forall M X Y R,
         map_method R I c k = Ok v /\ map_method R' I' (b_map_class R c) v = Ok k).
 Proof. exact roundtrip_mappings. Qed.
 Print Assumptions C06_roundtrip.
+
+(* ---- 5. round trip of members reached through inheritance ----
+   Forward: tables R with provider I.  Backward: the tables Mappings::remapper_b(Y, X, ..) builds
+   (= swap_b R, C06_remapper_b_swap) with the provider JarSuperProv::remap(forward remapper, I)
+   produces, [remap_inh (b_map_class R) I] (C06_remap_provs_inh).
+     rt_world R I       target class names pairwise distinct and binary class names (tables_inj
+                        (swap_b R), names_valid R), and every class name the provider mentions is
+                        mapped or is not some other class's target name (prov_closed)
+     rt_owner sel R I c the owner is such a name too (closedb), and the entries VISIBLE from c — the
+                        table of c and of every type of its depth-first pre-order — are named
+                        injectively in the target namespace: equal target keys have equal source keys
+                        (no_shadow_collision; shadowing under the same source key is allowed)
+     *_query_ok R I c k the key is declared by a visible type, or (fall-back answer) its descriptor
+                        is a descriptor over closed class names and the fall-back key (same name,
+                        mapped descriptor) is not the target of a visible entry
+   All decidable; none can be dropped (C06_shadow_counterexample). *)
+Theorem C06_roundtrip_field_inherited : forall R I rank c k,
+  rt_world R I = true -> acyclic_rank I rank -> rt_owner b_fields R I c = true -> field_query_ok R I c k = true ->
+  exists c' k', map_field_ref R I c k = Ok (c', k') /\
+                map_field_ref (swap_b R) (remap_inh (b_map_class R) I) c' k' = Ok (c, k).
+Proof. exact roundtrip_field_inherited. Qed.
+Print Assumptions C06_roundtrip_field_inherited.
+
+Theorem C06_roundtrip_method_inherited : forall R I rank c k,
+  rt_world R I = true -> acyclic_rank I rank -> rt_owner b_methods R I c = true -> method_query_ok R I c k = true ->
+  exists c' k', map_method_ref_obj R I c k = Ok (c', k') /\
+                map_method_ref_obj (swap_b R) (remap_inh (b_map_class R) I) c' k' = Ok (c, k).
+Proof. exact roundtrip_method_inherited. Qed.
+Print Assumptions C06_roundtrip_method_inherited.
+
+(* on the mapping set, for every owner — with or without an entry of its own *)
+Theorem C06_roundtrip_inherited : forall M X Y R I rank,
+  remapper_b M X Y = Ok R -> rt_world R I = true -> acyclic_rank I rank ->
+  exists R', remapper_b M Y X = Ok R' /\
+    (forall c k, rt_owner b_fields R I c = true -> field_query_ok R I c k = true ->
+       exists c' k', map_field_ref R I c k = Ok (c', k') /\
+                     map_field_ref R' (remap_inh (b_map_class R) I) c' k' = Ok (c, k)) /\
+    (forall c k, rt_owner b_methods R I c = true -> method_query_ok R I c k = true ->
+       exists c' k', map_method_ref_obj R I c k = Ok (c', k') /\
+                     map_method_ref_obj R' (remap_inh (b_map_class R) I) c' k' = Ok (c, k)).
+Proof. exact roundtrip_mappings_inherited. Qed.
+Print Assumptions C06_roundtrip_inherited.
+
+(* a member that some visible type declares: no condition on the query's descriptor *)
+Theorem C06_roundtrip_inherited_found : forall sel R I rank c k v,
+  sel = b_fields \/ sel = b_methods -> tables_inj (swap_b R) = true -> acyclic_rank I rank ->
+  closedb R c = true -> prov_closed R I = true -> no_shadow_collision sel R I c = true ->
+  map_member_fail sel (default_fuel I) R I c k = Ok (Some v) ->
+  map_member sel (default_fuel I) R I c k = Ok v /\
+  map_member sel (default_fuel (remap_inh (b_map_class R) I)) (swap_b R) (remap_inh (b_map_class R) I) (b_map_class R c) v = Ok k.
+Proof. exact roundtrip_inherited_found. Qed.
+Print Assumptions C06_roundtrip_inherited_found.
+
+(* JarSuperProv::remap (remap_provs: IndexMap / IndexSet inserts, per provider) is remap_inh on
+   providers with distinct keys and distinct super types whose names the class map keeps apart *)
+Theorem C06_remap_provs_inh : forall R ps,
+  tables_inj (swap_b R) = true -> prov_closed R (concat ps) = true -> forallb prov_wf ps = true ->
+  concat (remap_provs (b_map_class R) ps) = remap_inh (b_map_class R) (concat ps).
+Proof. exact remap_provs_inh. Qed.
+Print Assumptions C06_remap_provs_inh.
+
+(* the hypotheses are needed: Sub.m -> n, Base.p -> n, Sub extends Base satisfies everything but
+   no_shadow_collision and Sub.p -> n -> m; C.a -> b with an unmapped b satisfies everything but
+   method_query_ok and D.b -> b -> a (D extends C) *)
+Theorem C06_shadow_counterexample : shadow_counterexample.
+Proof. exact shadow_counterexample_holds. Qed.
+Print Assumptions C06_shadow_counterexample.
+
+(* non-vacuity with real inheritance: owners without a row, a mapped owner that declares nothing,
+   shadowing, a diamond, an inherited field, a fall-back key — all inside the hypotheses *)
+Theorem C06_inherited_examples : inherited_examples.
+Proof. exact inherited_examples_hold. Qed.
+Print Assumptions C06_inherited_examples.
 
 (* ---- non-vacuity (three namespaces, from = 1, shadowing, unmapped owner, half-named row) ---- *)
 Theorem C06_examples : nonvacuous.
